@@ -232,11 +232,11 @@ Qed.
 
 Definition okL_step (m m' : monL) (st' : state) : Prop := InvL m' st' /\ l_ok m' = l_ok m.
 
-Lemma stepL dttl ps m st t st' evs :
-  InvL m st -> step dttl ps st t = (st', evs) ->
+Lemma stepL0 dttl ps m st t st' evs :
+  InvL m st -> step0 dttl ps st t = (st', evs) ->
   InvL (fold_left monL_step evs m) st' /\ l_ok (fold_left monL_step evs m) = l_ok m.
 Proof.
-  intros I H. unfold step in H.
+  intros I H. unfold step0 in H.
   destruct (nth_error ps t) as [p|]; [|inversion H; subst; split; [exact I|reflexivity]].
   destruct (nth_error (thrs st) t) as [th|] eqn:Ht; [|inversion H; subst; split; [exact I|reflexivity]].
   assert (Hstut : (st, []) = (st', evs) ->
@@ -313,10 +313,10 @@ Proof.
   Unshelve. all: exact RLost.
 Qed.
 
-Lemma step_len dttl ps st t st' evs :
-  step dttl ps st t = (st', evs) -> length (thrs st') = length (thrs st).
+Lemma step_len0 dttl ps st t st' evs :
+  step0 dttl ps st t = (st', evs) -> length (thrs st') = length (thrs st).
 Proof.
-  unfold step, sys_done. intro H.
+  unfold step0, sys_done. intro H.
   repeat match type of H with
          | context [match ?x with _ => _ end] => destruct x eqn:?
          end; inversion H; subst; clear H;
@@ -328,6 +328,36 @@ Proof.
          end;
   cbn [set_thr thrs fst evict with_locks]; rewrite ?length_upd; congruence.
 Qed.
+
+(* monitors that ignore EUnder do not see the annotation *)
+Lemma fold_annot {M} (f : M -> event -> M) st t :
+  (forall m u s, f m (EUnder u s) = m) ->
+  forall evs m, fold_left f (annotate st t evs) m = fold_left f evs m.
+Proof.
+  intros Hig. induction evs as [|e evs IH]; intro m; [reflexivity|].
+  unfold annotate. cbn [flat_map]. fold (annotate st t evs). rewrite fold_left_app, IH.
+  destruct e; cbn [fold_left]; try reflexivity.
+  destruct (in_call_other st t s); cbn [fold_left]; [rewrite Hig|]; reflexivity.
+Qed.
+
+Lemma step_unfold dttl ps st t st' evs :
+  step dttl ps st t = (st', evs) ->
+  exists evs0, step0 dttl ps st t = (st', evs0) /\ evs = annotate st t evs0.
+Proof.
+  unfold step. destruct (step0 dttl ps st t) as [st1 e0]. intro H; inversion H; subst. eauto.
+Qed.
+
+Lemma stepL dttl ps m st t st' evs :
+  InvL m st -> step dttl ps st t = (st', evs) ->
+  InvL (fold_left monL_step evs m) st' /\ l_ok (fold_left monL_step evs m) = l_ok m.
+Proof.
+  intros I H. apply step_unfold in H as [e0 [H ->]]. rewrite fold_annot by reflexivity.
+  eapply stepL0; eauto.
+Qed.
+
+Lemma step_len dttl ps st t st' evs :
+  step dttl ps st t = (st', evs) -> length (thrs st') = length (thrs st).
+Proof. intro H. apply step_unfold in H as [e0 [H _]]. eapply step_len0; eauto. Qed.
 
 Lemma run_len dttl ps sched : forall st st' tr,
   run dttl ps st sched = (st', tr) -> length (thrs st') = length (thrs st).
@@ -597,11 +627,11 @@ Lemma respC_noop ps m t r p :
   nth_error ps t = Some p -> (forall w b, p <> PDrain w b) -> monC_step ps m (EResp t r) = m.
 Proof. intros Hp Hn. cbn [monC_step]. rewrite Hp. destruct p; try reflexivity. exfalso; eapply Hn; eauto. Qed.
 
-Lemma stepC dttl ps m st t st' evs :
-  InvC m st -> step dttl ps st t = (st', evs) ->
+Lemma stepC0 dttl ps m st t st' evs :
+  InvC m st -> step0 dttl ps st t = (st', evs) ->
   InvC (fold_left (monC_step ps) evs m) st' /\ c_ok (fold_left (monC_step ps) evs m) = c_ok m.
 Proof.
-  intros I H. unfold step in H.
+  intros I H. unfold step0 in H.
   destruct (nth_error ps t) as [p|] eqn:Hp; [|inversion H; subst; split; [exact I|reflexivity]].
   destruct (nth_error (thrs st) t) as [th|] eqn:Ht; [|inversion H; subst; split; [exact I|reflexivity]].
   assert (Hstut : (st, []) = (st', evs) ->
@@ -674,6 +704,14 @@ Proof.
   - exact (Hstut H).
 Qed.
 
+Lemma stepC dttl ps m st t st' evs :
+  InvC m st -> step dttl ps st t = (st', evs) ->
+  InvC (fold_left (monC_step ps) evs m) st' /\ c_ok (fold_left (monC_step ps) evs m) = c_ok m.
+Proof.
+  intros I H. apply step_unfold in H as [e0 [H ->]]. rewrite fold_annot by reflexivity.
+  eapply stepC0; eauto.
+Qed.
+
 Lemma runC dttl ps sched : forall m st st' tr,
   InvC m st -> run dttl ps st sched = (st', tr) ->
   InvC (fold_left (monC_step ps) tr m) st' /\ c_ok (fold_left (monC_step ps) tr m) = c_ok m.
@@ -710,12 +748,13 @@ Lemma monC_fields ps tr : forall m,
 Proof.
   induction tr as [|e tr IH]; intro m; cbn [fold_left opened_in closed_in flat_map rev app]; [auto|].
   fold (opened_in tr). fold (closed_in tr). destruct (IH (monC_step ps m e)) as [A B]. rewrite A, B.
-  destruct e as [t|t s b|t a|s|t r]; cbn [monC_step app rev].
+  destruct e as [t|t s b|t a|s|t s|t r]; cbn [monC_step app rev].
   - auto.
   - auto.
   - destruct a; cbn [c_opened c_closed app rev]; auto.
     rewrite <- ?app_assoc; auto.
   - cbn [c_opened c_closed]. rewrite <- ?app_assoc; auto.
+  - auto.
   - destruct (nth_error ps t) as [[]|]; auto.
 Qed.
 
@@ -825,9 +864,9 @@ Proof.
   - destruct (t_sess th); [destruct (reg_close st w n)|]; inversion H; subst; cbn [t_mint]; auto.
 Qed.
 
-Lemma stepT dttl ps st t st' evs : InvT ps st -> step dttl ps st t = (st', evs) -> InvT ps st'.
+Lemma stepT0 dttl ps st t st' evs : InvT ps st -> step0 dttl ps st t = (st', evs) -> InvT ps st'.
 Proof.
-  intros I H. unfold step, sys_done in H.
+  intros I H. unfold step0, sys_done in H.
   destruct (nth_error ps t) as [p|] eqn:Hp; [|inversion H; subst; exact I].
   destruct (nth_error (thrs st) t) as [th|] eqn:Ht; [|inversion H; subst; exact I].
   repeat match type of H with
@@ -847,6 +886,9 @@ Proof.
   all: match goal with X : _ \/ _ |- _ => destruct X as [Hm|[s0 Hm]] end;
     [left; exact Hm | right; repeat eexists; eauto].
 Qed.
+
+Lemma stepT dttl ps st t st' evs : InvT ps st -> step dttl ps st t = (st', evs) -> InvT ps st'.
+Proof. intros I H. apply step_unfold in H as [e0 [H _]]. eapply stepT0; eauto. Qed.
 
 Lemma runT dttl ps sched : forall st st' tr,
   InvT ps st -> run dttl ps st sched = (st', tr) -> InvT ps st'.
@@ -895,3 +937,183 @@ Qed.
 
 Lemma model_meets_spec_LC i : specL i (model i) && specC i (model i) = true.
 Proof. now rewrite specL_model, specC_model. Qed.
+
+(* ---- teardown is serialized with calls (monitor X) ---------------------- *)
+Lemma combine_seq_nth {A} (l : list A) : forall a u x,
+  In (u, x) (combine (seq a (length l)) l) -> (a <= u)%nat /\ nth_error l (u - a) = Some x.
+Proof.
+  induction l as [|y l IH]; intros a u x H; cbn in H; [contradiction|].
+  destruct H as [H|H].
+  - inversion H; subst. rewrite Nat.sub_diag. split; [lia | reflexivity].
+  - apply IH in H as [H1 H2]. split; [lia|].
+    replace (u - a)%nat with (S (u - S a)) by lia. exact H2.
+Qed.
+
+Lemma in_call_other_true st t s :
+  in_call_other st t s = true ->
+  exists u th rest, u <> t /\ nth_error (thrs st) u = Some th /\ t_ph th = PhRun (Some s) rest.
+Proof.
+  unfold in_call_other. intro H. apply existsb_exists in H as [[u th] [Hin Hc]].
+  cbn [fst snd] in Hc. apply andb_true_iff in Hc as [Hne Hp].
+  apply combine_seq_nth in Hin as [_ Hn]. rewrite Nat.sub_0_r in Hn.
+  destruct (t_ph th) as [| |[s'|] rest| |] eqn:Ep; try discriminate.
+  apply N.eqb_eq in Hp; subst s'. exists u, th, rest. repeat split; auto.
+  intros ->. now rewrite Nat.eqb_refl in Hne.
+Qed.
+
+(* a delete that holds the lock of s is alone on s: nobody is inside a handler on s *)
+Lemma del_holder_alone mL st t th s u :
+  InvL mL st -> nth_error (thrs st) t = Some th -> t_ph th = PhDel s u ->
+  in_call_other st t s = false.
+Proof.
+  intros I Ht Ep. destruct (in_call_other st t s) eqn:E; [|reflexivity]. exfalso.
+  apply in_call_other_true in E as (u' & th' & rest & Hne & Hn & Ep').
+  assert (A : lock_of s (locks st) = Some t) by (eapply (L_held _ _ I); eauto; unfold held_by; now rewrite Ep).
+  assert (B : lock_of s (locks st) = Some u') by (eapply (L_held _ _ I); eauto; unfold held_by; now rewrite Ep').
+  congruence.
+Qed.
+
+Definition is_under (e : event) : bool := match e with EUnder _ _ => true | _ => false end.
+
+Lemma annot_under st t e0 u s :
+  existsb is_under e0 = false -> In (EUnder u s) (annotate st t e0) -> u = t.
+Proof.
+  induction e0 as [|e e0 IH]; cbn [existsb annotate flat_map]; intros Hn Hin; [contradiction|].
+  apply orb_false_iff in Hn as [He Hn]. apply in_app_or in Hin as [Hin|Hin]; [|eauto].
+  destruct e; cbn in He; try discriminate; cbn in Hin;
+    try (destruct Hin as [Hin|[]]; discriminate).
+  destruct (in_call_other st t s0); cbn in Hin.
+  - destruct Hin as [Hin|[Hin|[]]]; [discriminate | inversion Hin; reflexivity].
+  - destruct Hin as [Hin|[]]; discriminate.
+Qed.
+
+Lemma foldX_quiet ps evs : forall m,
+  x_sus m = [] ->
+  (forall u s, In (EUnder u s) evs -> forall w c tk, nth_error ps u <> Some (PDelete w c tk)) ->
+  x_sus (fold_left (monX_step ps) evs m) = [] /\ x_ok (fold_left (monX_step ps) evs m) = x_ok m.
+Proof.
+  induction evs as [|e evs IH]; intros m Hs Hq; cbn [fold_left]; [auto|].
+  assert (Hm : x_sus (monX_step ps m e) = [] /\ x_ok (monX_step ps m e) = x_ok m).
+  { destruct e; cbn [monX_step]; auto.
+    - destruct (nth_error ps t) as [[]|] eqn:Ep; auto.
+      exfalso. eapply (Hq t s); [left; reflexivity | exact Ep].
+    - cbn [x_sus x_ok]. rewrite Hs. cbn. split; [reflexivity|].
+      destruct r; try destruct hit; cbn; now rewrite andb_true_r. }
+  destruct Hm as [H1 H2]. destruct (IH (monX_step ps m e) H1) as [A B].
+  - intros u s Hin. apply (Hq u s). right; exact Hin.
+  - split; [exact A | congruence].
+Qed.
+
+Lemma resolve_evs st w c tk st1 evs r :
+  resolve st w c tk = (st1, evs, r) ->
+  (evs = [] \/ exists s, evs = [EClosed s] /\ r = None) /\ (r <> None -> evs = []).
+Proof.
+  unfold resolve. intro H.
+  repeat match type of H with
+         | context [match ?x with _ => _ end] => destruct x
+         | context [if ?x then _ else _] => destruct x
+         end; inversion H; subst; split; eauto; try (intros _; reflexivity); intro X; now elim X.
+Qed.
+
+Lemma do_act_no_under dttl st t th w c acc ttl a st1 th1 evs :
+  do_act dttl st t th w c acc ttl a = (st1, th1, evs) -> existsb is_under evs = false.
+Proof.
+  unfold do_act. intro H. destruct a.
+  - repeat match type of H with context [if ?x then _ else _] => destruct x end;
+      inversion H; subst; reflexivity.
+  - destruct (t_sess th); [destruct (reg_close st w n) as [? []]|]; inversion H; subst; reflexivity.
+Qed.
+
+Lemma existsb_under_closed l : existsb is_under (map EClosed l) = false.
+Proof. induction l; cbn; auto. Qed.
+
+Lemma step0_no_under dttl ps st t st' e0 :
+  step0 dttl ps st t = (st', e0) -> existsb is_under e0 = false.
+Proof.
+  unfold step0, sys_done. intro H.
+  repeat match type of H with
+         | context [match ?x with _ => _ end] => destruct x eqn:?
+         end; inversion H; subst; clear H;
+  repeat match goal with
+         | E : resolve _ _ _ _ = _ |- _ => apply resolve_evs in E as [[->|[? [-> ?]]] _]
+         | E : do_act _ _ _ _ _ _ _ _ _ = _ |- _ => apply do_act_no_under in E
+         end;
+  rewrite ?existsb_app, ?existsb_under_closed; cbn [existsb is_under orb app]; auto.
+Qed.
+
+Lemma stepX dttl ps mL m st t st' evs :
+  InvL mL st -> x_sus m = [] -> step dttl ps st t = (st', evs) ->
+  x_sus (fold_left (monX_step ps) evs m) = [] /\ x_ok (fold_left (monX_step ps) evs m) = x_ok m.
+Proof.
+  intros I Hs H. apply step_unfold in H as [e0 [H ->]].
+  pose proof (step0_no_under _ _ _ _ _ _ H) as Hnu.
+  destruct (nth_error ps t) as [p|] eqn:Hp.
+  2:{ apply foldX_quiet; auto. intros u s Hin w c tk. apply (annot_under _ _ _ _ _ Hnu) in Hin. subst. congruence. }
+  destruct p as [w c tk acc ttl body out|w c tk| | | |];
+    try (apply foldX_quiet; auto; intros u s Hin w' c' tk'; apply (annot_under _ _ _ _ _ Hnu) in Hin; subst; congruence).
+  (* a delete *)
+  unfold step0 in H. rewrite Hp in H.
+  destruct (nth_error (thrs st) t) as [th|] eqn:Ht; [|inversion H; subst; cbn; auto].
+  destruct (t_ph th) eqn:Eph.
+  - assert (Hres : forall tk0,
+      (let '(st1, evs1, r) := resolve st w c (deref st tk0) in
+       match r with
+       | Some s => (set_thr st1 t (set_ph th (PhWait s)), EStart t :: evs1)
+       | None => (set_thr st1 t (set_ph th PhDone), EStart t :: evs1 ++ [EResp t (RDel false)])
+       end) = (st', e0) ->
+      x_sus (fold_left (monX_step ps) (annotate st t e0) m) = [] /\
+      x_ok (fold_left (monX_step ps) (annotate st t e0) m) = x_ok m).
+    { intros tk0 E. destruct (resolve st w c (deref st tk0)) as [[st1 evs1] r] eqn:Er.
+      apply resolve_evs in Er as [Hev Hfound]. destruct r as [s|].
+      - rewrite Hfound in E by discriminate. inversion E; subst. cbn. auto.
+      - destruct Hev as [->|[s [-> _]]]; inversion E; subst; cbn [app annotate flat_map].
+        + cbn. rewrite Hs. cbn. now rewrite andb_true_r.
+        + destruct (in_call_other st t s); cbn [app fold_left monX_step]; rewrite ?Hp;
+            cbn [x_sus x_ok filter]; rewrite ?Hs; cbn; rewrite ?Nat.eqb_refl; cbn;
+            now rewrite andb_true_r. }
+    destruct tk as [| |k]; [ | exact (Hres TGarbage H) | exact (Hres (TOf k) H) ].
+    inversion H; subst. cbn. rewrite Hs. cbn. now rewrite andb_true_r.
+  - destruct (lock_of s (locks st)); inversion H; subst; cbn; auto.
+  - destruct rest; inversion H; subst; cbn; auto.
+  - destruct unlocking.
+    + inversion H; subst. cbn. rewrite Hs. cbn. now rewrite andb_true_r.
+    + destruct (reg_close st w s) as [st1 hit]. inversion H; subst.
+      destruct hit; cbn [annotate flat_map app]; [|cbn; auto].
+      rewrite (del_holder_alone _ _ _ _ _ _ I Ht Eph). cbn. auto.
+  - inversion H; subst. cbn. auto.
+Qed.
+
+Lemma runX dttl ps sched : forall mL m st st' tr,
+  InvL mL st -> x_sus m = [] -> run dttl ps st sched = (st', tr) ->
+  x_sus (fold_left (monX_step ps) tr m) = [] /\ x_ok (fold_left (monX_step ps) tr m) = x_ok m.
+Proof.
+  induction sched as [|t r IH]; intros mL m st st' tr I Hs H; cbn [run] in H.
+  - inversion H; subst. cbn. auto.
+  - destruct (step dttl ps st t) as [st1 e1] eqn:E1. destruct (run dttl ps st1 r) as [st2 e2] eqn:E2.
+    inversion H; subst. rewrite fold_left_app.
+    destruct (stepX _ _ _ _ _ _ _ _ I Hs E1) as [S1 O1].
+    destruct (stepL _ _ _ _ _ _ _ I E1) as [I1 _].
+    destruct (IH _ _ _ _ _ I1 S1 E2) as [S2 O2]. split; [exact S2 | congruence].
+Qed.
+
+Lemma specX_model i : specX i (model i) = true.
+Proof.
+  unfold specX, model. destruct (run (i_dttl i) (i_progs i) (init (i_progs i)) (i_sched i)) as [st tr] eqn:H.
+  cbn [o_trace]. destruct (runX _ _ _ monL0 monX0 _ _ _ (initL _) eq_refl H) as [_ Ok]. rewrite Ok. reflexivity.
+Qed.
+
+(* state form: when a delete is about to run registry.close (it holds the lock),
+   no other thread holds the session, and nobody is inside a handler on it *)
+Lemma teardown_alone dttl ps sched st tr t th s u :
+  run dttl ps (init ps) sched = (st, tr) ->
+  nth_error (thrs st) t = Some th -> t_ph th = PhDel s u ->
+  in_call_other st t s = false /\
+  forall t' th', nth_error (thrs st) t' = Some th' -> held_by th' = Some s -> t' = t.
+Proof.
+  intros H Ht Ep. destruct (runL _ _ _ _ _ _ _ (initL ps) H) as [I _]. split.
+  - eapply del_holder_alone; eauto.
+  - intros t' th' Hn Hh. eapply reach_mutex; eauto. unfold held_by. now rewrite Ep.
+Qed.
+
+Lemma model_meets_spec_LCX i : specL i (model i) && specC i (model i) && specX i (model i) = true.
+Proof. now rewrite specL_model, specC_model, specX_model. Qed.
